@@ -53,6 +53,54 @@ theorem C11_layers_never_share_an_array {s : State} (h : Reach s) :
     (s.impl ≠ .new → ∀ l, l < s.nLayers → (s.layers l).data ≠ 0) :=
   ⟨h.wf.data_inj, h.wf.data_lt, h.wf.legacy_data⟩
 
+/-- The frame of a single-cell write in its alias-aware form, for *every* state — also one reached through `rebind`, in which
+    layers may share an array —: the write through layer `l` sets the entry at `c` of every layer that shares `l`'s array
+    (all of them read `v` there) and changes nothing of a layer whose array is another, nor any other entry. -/
+theorem C11_write_frame_by_array {s s' : State} {l : Nat} {c : Coord} {v : Int}
+    (hset : layerSet s l c v = (s', .ok)) (l' : Nat) (c' : Coord) :
+    s'.value l' c' = if (s.layers l').data = (s.layers l).data ∧ c' = c then v else s.value l' c' := by
+  obtain ⟨_, _, rfl⟩ := layerSet_ok hset
+  unfold State.value
+  show upd s.heap (s.layers l).data ((s.heap (s.layers l).data).set c v) (s.layers l').data c' = _
+  by_cases hd : (s.layers l').data = (s.layers l).data
+  · rw [hd, upd_same]
+    by_cases hc : c' = c <;> simp [Arr.set, hc]
+  · rw [upd_other _ _ _ _ hd]
+    simp [hd]
+
+/-- Legacy `l2.data = <a reference to l1's array>` (`rebind`, a transition outside the op language): from then on the two
+    layer objects are one value — equal everywhere at once, and a write through `l1` is read through `l2` (hence through
+    the cell view `grid.properties[name]` of whatever name `l2` is attached under) — until one of them is re-pointed. -/
+theorem C11_rebound_layers_are_one_value {s s1 : State} {l1 l2 h : Nat} {d : List Nat}
+    (hh : s.handles.lookup h = some ((s.layers l1).data, d)) (hne : l1 ≠ l2) (hr : rebind s l2 h = (s1, .ok)) :
+    (s1.layers l2).data = (s1.layers l1).data ∧ (∀ c, s1.value l2 c = s1.value l1 c) ∧
+    ∀ c v s2, layerSet s1 l1 c v = (s2, .ok) → s2.value l2 c = v ∧ ∀ c', s2.value l2 c' = s2.value l1 c' := by
+  have hs1 : s1.layers = upd s.layers l2 { s.layers l2 with data := (s.layers l1).data } ∧ s1.heap = s.heap := by
+    unfold rebind at hr
+    split at hr
+    · simp at hr
+    · split at hr
+      · simp at hr
+      · next L hL =>
+        obtain ⟨_, rfl⟩ := layer?_some hL
+        rw [hh] at hr
+        simp only at hr
+        split at hr
+        · simp at hr
+        · split at hr
+          · simp at hr
+          · simp only [Prod.mk.injEq, and_true] at hr
+            subst hr
+            exact ⟨rfl, rfl⟩
+  obtain ⟨hl, hheap⟩ := hs1
+  have hd : (s1.layers l2).data = (s1.layers l1).data := by
+    rw [hl]; simp [upd, hne]
+  refine ⟨hd, fun c => by simp [State.value, hd], fun c v s2 hset => ?_⟩
+  have hf := C11_write_frame_by_array hset
+  refine ⟨by rw [hf l2 c]; simp [hd], fun c' => ?_⟩
+  rw [hf l2 c', hf l1 c']
+  simp [hd, State.value]
+
 /-- A write through the cell attribute is read back through the layer (and through the cell), and it
     changes no other entry of this layer and no entry of any other layer. -/
 theorem C11_cell_write_read_through_layer {s s' : State} (h : Reach s) {n : String} {l : Nat}
@@ -876,8 +924,8 @@ theorem C11_empty_view_is_emptiness (impl : Impl) (dims : List Nat) (cap : Optio
     (hs : safeHist (init impl dims cap) ops) :
     ∃ e, (run (init impl dims cap) ops).1.emptyArr? = some e ∧
       ∀ c, e c = boolInt ((run (init impl dims cap) ops).1.isEmptyCell c) := by
-  have hinv := Inv_run (WF_init impl dims cap) (EmpInv_init impl dims cap) ops hs
-  refine ⟨(run (init impl dims cap) ops).1.heap 0, ?_, hinv.view⟩
+  have hinv := Inv_run (W := fun _ => False) (WF_init impl dims cap) (EmpInv_init impl dims cap) ops hs
+  refine ⟨(run (init impl dims cap) ops).1.heap 0, ?_, fun c => hinv.view c (fun hf => hf)⟩
   unfold State.emptyArr?
   split
   · next hi =>
@@ -908,6 +956,23 @@ theorem C11_empties_readout_agrees (impl : Impl) (dims : List Nat) (cap : Option
     simp only [Option.some.injEq] at this
     rw [this, hfun]
     simp [List.map_map, Function.comp_def]
+
+/-- The converse, for histories in which the user *does* write through a reference to the emptiness array
+    (`grid.empty.data[c] = v`, legacy `grid.empty_mask[c] = v`) — every op otherwise statically safe —: the view is
+    still there and is wrong *at most at the cells so written* (`aliasWrites`: judged at the time of each write; a
+    later move of an agent through such a cell may well repair it); everywhere else it is actual emptiness. -/
+theorem C11_empty_view_wrong_at_most_where_written (impl : Impl) (dims : List Nat) (cap : Option Nat) (ops : List Op)
+    (hs : ∀ op ∈ ops, op.safe impl = true) :
+    ∃ e, (run (init impl dims cap) ops).1.emptyArr? = some e ∧
+      ∀ c, ¬ aliasWrites (init impl dims cap) ops c → e c = boolInt ((run (init impl dims cap) ops).1.isEmptyCell c) := by
+  have hinv := Inv_run_alias (W := fun _ => False) (WF_init impl dims cap) (EmpInv_init impl dims cap) ops hs
+  refine ⟨(run (init impl dims cap) ops).1.heap 0, ?_, fun c hc => hinv.view c (fun hx => hx.elim (fun hf => hf) hc)⟩
+  unfold State.emptyArr?
+  split
+  · next hi =>
+    obtain ⟨h1, h2, _⟩ := hinv.named hi
+    simp [State.namedArr?, State.named?, h1, h2]
+  · rfl
 
 /-- What `safeHist` excludes is exactly the user's own overwrite: one op that is unsafe in a state where the view is right
     can only be a write to / re-pointing / removal of the built-in layer through the layer (id 0), through the cell
@@ -1404,6 +1469,22 @@ example : (run (init .new [1, 2] (some 0)) [.place 0 [0, 0], .empties]).2 =
     [.err .full, .emp (some [1, 1]) [true, true]] ∧
     (run (init .new [1, 2] none) [.place 0 [0, 0], .place 1 [0, 0], .empties]).2 =
     [.ok, .ok, .emp (some [0, 1]) [false, true]] := by decide
+/-- the converse at work: the history that writes `False` into `empty_mask[0, 0]` is statically safe, the written cell is
+    the only one in `aliasWrites`, and the view is indeed wrong there and right elsewhere -/
+example : (∀ op ∈ [Op.grabMask 0, .hset 0 [0, 0] 0, .place 1 [1, 1]], op.safe .single = true) ∧
+    aliasWrites (init .single [2, 2] none) [.grabMask 0, .hset 0 [0, 0] 0, .place 1 [1, 1]] [0, 0] ∧
+    ¬ aliasWrites (init .single [2, 2] none) [.grabMask 0, .hset 0 [0, 0] 0, .place 1 [1, 1]] [1, 1] ∧
+    empties (run (init .single [2, 2] none) [.grabMask 0, .hset 0 [0, 0] 0, .place 1 [1, 1]]).1 =
+      .emp (some [0, 1, 1, 0]) [true, true, true, false] := by
+  refine ⟨by decide, ?_, ?_, by decide⟩
+  · simp [aliasWrites, step, grabMask, init]
+  · simp [aliasWrites, step, grabMask, init]
+/-- aliasing at work on a legacy grid: `b.data = a.data`; a write through `a` shows in `b` and in `grid.properties["b"]`;
+    after `a` is re-pointed by `modify_cells` the two part again (`b` keeps the old array) -/
+example : (rebind (run (init .multi [1, 2] none) [.create "a" .int 1, .create "b" .int 5, .grab 0 0]).1 1 0).2 = .ok ∧
+    (run (rebind (run (init .multi [1, 2] none) [.create "a" .int 1, .create "b" .int 5, .grab 0 0]).1 1 0).1
+      [.layerSet 0 [0, 1] 9, .cellGet "b" [0, 1], .modifyCells 0 false (some (· + 1)) none, .layerSet 0 [0, 0] 3,
+       .dump 1, .dump 0]).2 = [.ok, .val 9, .ok, .ok, .arr [1, 9], .arr [3, 10]] := by decide
 /-- legacy MultiGrid with two agents in one cell: the mask turns true only when the last one leaves -/
 example : ((run (init .multi [2, 2] none) [.place 0 [0, 1], .place 1 [0, 1], .remove 0, .empties, .remove 1, .empties]).2.drop 3)
     = [.emp (some [1, 0, 1, 1]) [true, false, true, true], .ok, .emp (some [1, 1, 1, 1]) [true, true, true, true]] := by
